@@ -1,7 +1,8 @@
 //! C10 driver: subcommand `tcase`.
 //!
 //! case: {"id", "ts": T, "opt": bool, "mappings": {name: target}|null, "enum": bool, "unit": bool,
-//!        "keys": [field key, parameter key, channel key, second enum literal] | null, "scratch": dir}
+//!        "keys": [field key, parameter key, channel key, second enum literal] | null,
+//!        "extra": [[command name, [[parameter name, T, opt], ..]], ..] | null, "scratch": dir}
 //!   T = ["prim", "string"|"number"|"boolean"|"void"] | ["arr", T] | ["map", T, T] | ["set", T]
 //!     | ["tuple", T...] | ["opt", T] | ["res", T] | ["custom", name]
 //!
@@ -218,12 +219,24 @@ pub fn tcase(case: &Value) -> Value {
         );
         uparams.push(param("z", &TypeStructure::Custom("Z".to_string()), false));
     }
-    let commands = vec![
+    let mut commands = vec![
         command("c", vec![param_as("p", pk, &t, opt)], vec![]),
         command("d", vec![param_as("p", pk, &t, opt)], vec![channel("d", ck, &chan_t)]),
         command("e", vec![], vec![channel("e", ck, &chan_t)]),
         command("u", uparams, vec![]),
     ];
+    // further commands with several parameters each: [[name, [[pname, T, opt], ..]], ..], in this order
+    if let Some(extra) = case.get("extra").and_then(|e| e.as_array()) {
+        for c in extra {
+            let ps: Vec<ParameterInfo> = c[1]
+                .as_array()
+                .unwrap()
+                .iter()
+                .map(|p| param(p[0].as_str().unwrap(), &ts_of(&p[1]), p[2].as_bool().unwrap_or(false)))
+                .collect();
+            commands.push(command(c[0].as_str().unwrap(), ps, vec![]));
+        }
+    }
 
     let scratch = case["scratch"].as_str().expect("scratch dir");
     let base = std::path::Path::new(scratch).join(format!("c10-{}-{}", std::process::id(), case["id"]));
